@@ -292,10 +292,20 @@ where
         // place all probability mass on a single symbol).
         assert!(support.end() > support.start());
 
-        let support_size_minus_one = support.end().wrapping_sub(support.start()).as_();
+        // Calculate the size of the support in a type that is wide enough for every `Symbol`
+        // type. Converting to `Probability` first would truncate (or sign extend) the size.
+        let support_size_minus_one =
+            match (support.end().to_u128(), support.start().to_u128()) {
+                (Some(end), Some(start)) => end - start,
+                // `start` is negative, so `Symbol` is signed and both bounds fit into `i128`.
+                _ => (support.end().to_i128().unwrap())
+                    .wrapping_sub(support.start().to_i128().unwrap()) as u128,
+            };
         let max_probability = Probability::max_value() >> (Probability::BITS - PRECISION);
         let free_weight = max_probability
-            .checked_sub(&support_size_minus_one)
+            .to_u128()
+            .and_then(|max_probability| max_probability.checked_sub(support_size_minus_one))
+            .and_then(<Probability as num_traits::NumCast>::from)
             .expect("The support is too large to assign a nonzero probability to each element.")
             .into();
 
